@@ -183,7 +183,12 @@ def serialise(a, syntax, R):
                 spelled[k] = sp
                 if kind == "cfg-mixed" and R.random() < 0.4:
                     # quotes are optional around every setup.cfg value, the booleans included
-                    lines.append(f'{k} = "{sp}"')
+                    if R.random() < 0.4:
+                        lines.append(f"{k} =")
+                        lines.append(f'    "{sp}"')        # ... also when the value stands on a continuation line
+                        spelled["continuation_boolean"] = 1
+                    else:
+                        lines.append(f'{k} = "{sp}"')
                     spelled["quoted_boolean"] = 1
                 elif kind == "cfg-unquoted" and R.random() < 0.3:
                     # the value on a continuation line (the layout the file patterns of the same file use)
